@@ -21,11 +21,11 @@ returns only).
 
 No meaning is given (`none`) where python has none either and the library treats a `Qchar` as an 8-bit
 integer: `~c`, `c[i]`, an if-expression with a `Qchar` and a `Qint` branch, a `Qchar` returned as a
-`Qint` or the converse.  `wellT` (decidable, evaluated under the same environment) lists those sites
-together with the two sites where the library *differs* from the python meaning given here:
-`!=` on tuples (translated as "every bit differs") and a subscript chain that stops at a tuple
-(`m[0]` for a matrix `m`: translated to the undefined symbol `m.0`).  The theorems of
-`QV/Props/C01.lean` assume `wellT`.
+`Qint` or the converse.  `wellT` / `wellRet` (decidable, evaluated under the same environment) list
+those sites; the theorems of `QV/Props/C01.lean` assume them.  (Two sites where the library *differed*
+from the python meaning given here were found while proving them and repaired in /repo: `!=` on tuples
+was translated as "every bit differs" - 6b91624 - and a subscript chain that stops at a tuple, `m[0]` for
+a matrix `m`, to the undefined symbol `m.0` - 6b971e4.)
 
 Mathlib-free (driver op `c01.semw`).
 -/
@@ -306,25 +306,19 @@ def isIntO : Option TVal → Bool
   | some (.int _ _) => true
   | _ => false
 
-def isTupleO : Option TVal → Bool
-  | some (.tuple _) => true
-  | _ => false
-
 mutual
-/-- no sub-expression is one of: `!=` on tuples; a subscript chain that stops at a tuple, selects a bit
-of a `Qchar`, or leaves the value; `~` on a `Qchar`; an if-expression with a `Qchar` and a `Qint` branch -/
+/-- no sub-expression uses a `Qchar` as an 8-bit integer: a subscript chain that selects a bit of a
+`Qchar` (or leaves the value: `semT` undefined); `~` on a `Qchar`; an if-expression with a `Qchar` and a
+`Qint` branch -/
 def wellT (σ : TEnv) : PExp → Bool
-  | .subs n path =>
-    match semT σ (.subs n path) with
-    | some v => !v.isTuple
-    | none => false
+  | .subs n path => (semT σ (.subs n path)).isSome
   | .not e => wellT σ e
   | .inv e => wellT σ e && !isCharO (semT σ e)
   | .boolop _ vs => wellTList σ vs
   | .ite c a b =>
     wellT σ c && wellT σ a && wellT σ b &&
       !((isCharO (semT σ a) && isIntO (semT σ b)) || (isIntO (semT σ a) && isCharO (semT σ b)))
-  | .cmp op l r => wellT σ l && wellT σ r && !(op == "NotEq" && isTupleO (semT σ l))
+  | .cmp _ l r => wellT σ l && wellT σ r
   | .bin _ l r => wellT σ l && wellT σ r
   | .tuple es => wellTList σ es
   | .name _ => true
